@@ -154,6 +154,7 @@ def run(prog, run):
 
     r3_chunk(prog, run, ready)
     r4_classes(prog, run, ready, accumulators)
+    r5_order(prog, run)
 
 
 APPENDS = ('append', 'operator+=', 'push_back')
@@ -317,3 +318,37 @@ def r4_classes(prog, run, ready, accumulators):
                               'decoded before it is complete (or held back although complete)' % (a, b2, len(preds)))
             else:
                 run.ok(rid, slot.loc(), '%d byte comparisons separate ASCII / continuation / 2- / 3- / 4-byte lead bytes' % len(preds))
+
+
+def r5_order(prog, run):
+    """what one parsed buffer yields is delivered in document order: stream open, then the stanzas, then stream close"""
+    rid = run.rule('C03.R5', 'processData emits what it parsed from one buffer in document order on every path: streamReceived before any stanzaReceived, streamClosed after '
+                             'all of them (otherwise the event order depends on whether the close tag arrived in the same read as the stanzas before it)', floor=1)
+    pd = prog.fn(SOCK + '::processData')
+    kinds = {SOCK + '::streamReceived': 'O', SOCK + '::stanzaReceived': 'S', SOCK + '::streamClosed': 'C'}
+    sites = {i: kinds[pd.cname(n)] for i, n in pd.calls() if pd.cname(n) in kinds}
+    if set(sites.values()) != {'O', 'S', 'C'}:
+        raise AnalysisBroken('C03.R5: processData no longer emits streamReceived / stanzaReceived / streamClosed (found %s)' % sorted(set(sites.values())))
+
+    def transfer(f, nid, st):
+        k = sites.get(nid)
+        if k is None or st.startswith('BAD'):
+            return None
+        # allowed order: O* S* C*  (the whitespace keep-alive emits a null stanza on its own early-return path)
+        rank = {'': 0, 'O': 1, 'S': 2, 'C': 3}
+        if rank[k] < rank[st]:
+            return 'BAD:%s-after-%s:%d' % (k, st, nid)
+        return k
+    exits, info = cfgx.explore(pd, '', transfer, None)
+    run.paths += len(exits)
+    run.instance(rid)
+    bad = [st for st in exits if st.startswith('BAD')]
+    if bad:
+        what, nid = bad[0].split(':')[1], int(bad[0].split(':')[2])
+        names = {'O': 'streamReceived', 'S': 'stanzaReceived', 'C': 'streamClosed'}
+        a, b = what.split('-after-')
+        run.violation(rid, 'processData#event-order#%s' % what, pd.loc(nid),
+                      '%s can be emitted after %s for elements parsed from the same buffer: the order of events then depends on how the stream was split into reads'
+                      % (names[a], names[b]), cfgx.describe_path(pd, exits[bad[0]]))
+    else:
+        run.ok(rid, pd.loc(), 'emission order open, stanzas, close on all %d path classes' % len(exits))
